@@ -63,6 +63,7 @@ theorem ax_last (nb : Nat) : axY nb 2 = 0 ∧ axX nb 2 = 1 ∧ axB nb 2 = 2 := b
 /-- what a member of a collection is: well formed, bands last, and showing the stored samples of its image segment unoriented -/
 structure Member (h : ImageHeaderFields) (t : Seg) : Prop where
   wf : t.wf = true
+  total : t.total = true
   fshape : t.fshape = getShape h.nrows h.ncols h.nbands 2
   pos : 0 < h.nrows ∧ 0 < h.ncols ∧ 0 < h.nbands
   spec : Valid h → ∀ idx : Idx, 0 ≤ idx 0 → idx 0 < (h.nrows : Int) → 0 ≤ idx 1 → idx 1 < (h.ncols : Int) →
@@ -85,10 +86,10 @@ theorem member_of_assembled {h : ImageHeaderFields} {o : ReaderOptions} {t : Seg
     have hg' := hg.1
     simp only [gridOK, decide_eq_true_eq] at hg'
     exact ⟨hg'.2.2.2.2.1, hg'.2.2.2.2.2, hg.2⟩
-  obtain ⟨X, bd, w, rfl, _, hw, hX, hXs, hfmt, hcc, hraw⟩ := (assembleImage_assembled (rawO_ok o) hok').ex
+  obtain ⟨X, bd, w, rfl, htot, _, hw, hX, hXs, hfmt, hcc, hraw⟩ := (assembleImage_assembled (rawO_ok o) hok').ex
   have hn : w.1 = none := hfmt
   have hsh := wrap_fshape X _ _ _ bd (rawO o) w hw hXs hcc
-  refine ⟨wrap_wf X _ _ _ bd (rawO o) w hw hX hXs hcc, ?_, hpos, ?_⟩
+  refine ⟨wrap_wf X _ _ _ bd (rawO o) w hw hX hXs hcc, wrap_total w X htot, ?_, hpos, ?_⟩
   · rw [hsh, hn]
     show rcShape h.nrows h.ncols (rawO o) ++ (if h.nbands = 1 then [] else [h.nbands]) = _
     unfold rcShape getShape
@@ -286,6 +287,13 @@ theorem stacked_mosaic_wf (nb rows cols : Nat) : ∀ (hs : List ImageHeaderField
     have := boxOK_boxDef rows cols R (R + h.nrows) 0 h.ncols nb 2 (by have := hm.pos.1; omega) hr hm.pos.2.1 hc (hnb ▸ hm.pos.2.2)
     simpa using this
 
+theorem stacked_mosaic_total (nb : Nat) : ∀ (hs : List ImageHeaderFields) (cs : List Seg), List.Forall₂ Member hs cs → ∀ R : Nat,
+    (mkBlks (((stackBoxes R hs).map (fun bx => boxDef bx.1 bx.2.1 bx.2.2.1 bx.2.2.2 nb 2)).zip cs)).total = true
+  | [], [], _, _ => rfl
+  | h :: rest, t :: ts, .cons hm hrest, R => by
+    simp only [stackBoxes, List.map_cons, List.zip_cons_cons, mkBlks, Blks.total, Bool.and_eq_true]
+    exact ⟨hm.total, stacked_mosaic_total nb rest ts hrest (R + h.nrows)⟩
+
 /-- what a successful assembly of a collection of two or more members went through -/
 theorem assembleCollection_ok {h0 h1 : ImageHeaderFields} {rest : List ImageHeaderFields} {o : ReaderOptions} {t : Seg}
     (hok : assembleCollection (h0 :: h1 :: rest) o = .ok t) :
@@ -331,7 +339,7 @@ theorem rawShape_last (rows cols nb : Nat) : (if nb = 1 then [rows, cols] else [
 theorem collection_assembled {h0 h1 : ImageHeaderFields} {rest : List ImageHeaderFields} {o : ReaderOptions} {t : Seg}
     (hst : Stacked (h0 :: h1 :: rest)) (hok : assembleCollection (h0 :: h1 :: rest) o = .ok t) :
     optionsOK o = true ∧ (∀ iq, h0.cplx = some iq → h0.nbands = 2) ∧
-    ∃ X, t = wrap (orientLast h0.cplx h0.nbands o true) X ∧ X.wf = true ∧
+    ∃ X, t = wrap (orientLast h0.cplx h0.nbands o true) X ∧ X.total = true ∧ X.wf = true ∧
       X.fshape = getShape (totalRows (h0 :: h1 :: rest)) (totalCols (h0 :: h1 :: rest)) h0.nbands 2 ∧
       ((∀ h ∈ h0 :: h1 :: rest, Valid h) →
         RawSpec X (totalRows (h0 :: h1 :: rest)) (totalCols (h0 :: h1 :: rest)) h0.nbands 2 (stackedSrc (h0 :: h1 :: rest))) := by
@@ -350,7 +358,7 @@ theorem collection_assembled {h0 h1 : ImageHeaderFields} {rest : List ImageHeade
   have hcols : listMax ((limits (h0 :: h1 :: rest)).map (·.2.2.2)) = totalCols (h0 :: h1 :: rest) := by
     rw [limits_stacked _ hst, stack_cols]; rfl
   rw [hrows, hcols, rawShape_last, limits_stacked _ hst]
-  refine ⟨ho, fun iq hq => cplxOK_two hc iq hq, _, rfl, ?_, rfl, ?_⟩
+  refine ⟨ho, fun iq hq => cplxOK_two hc iq hq, _, rfl, stacked_mosaic_total h0.nbands _ _ hmem 0, ?_, rfl, ?_⟩
   · show (mkBlks _).wfAll _ = true
     apply stacked_mosaic_wf h0.nbands _ _ _ _ hmem hnb 0
     intro bx hbx
@@ -376,14 +384,20 @@ theorem collection_assembled {h0 h1 : ImageHeaderFields} {rest : List ImageHeade
 /-- **a row-stacked collection assembles into a well-formed tree** (so `read_refines` applies to multi-segment images as well) -/
 theorem assembleCollection_wf {h0 h1 : ImageHeaderFields} {rest : List ImageHeaderFields} {o : ReaderOptions} {t : Seg}
     (hst : Stacked (h0 :: h1 :: rest)) (hok : assembleCollection (h0 :: h1 :: rest) o = .ok t) : t.wf = true := by
-  obtain ⟨ho, hc, X, rfl, hX, hXs, _⟩ := collection_assembled hst hok
+  obtain ⟨ho, hc, X, rfl, _, hX, hXs, _⟩ := collection_assembled hst hok
   exact wrap_wf X _ _ _ 2 o _ (orientLast_ok _ _ _ _ o ho) hX hXs (fun iq hq => hc iq (by rw [orientLast_fmt] at hq; exact hq))
+
+/-- a row-stacked collection refuses no normalised subscript: the premise `accepts` of `read_refines` holds for every subscript -/
+theorem assembleCollection_total {h0 h1 : ImageHeaderFields} {rest : List ImageHeaderFields} {o : ReaderOptions} {t : Seg}
+    (hst : Stacked (h0 :: h1 :: rest)) (hok : assembleCollection (h0 :: h1 :: rest) o = .ok t) : t.total = true := by
+  obtain ⟨_, _, X, rfl, htot, _⟩ := collection_assembled hst hok
+  exact wrap_total _ X htot
 
 /-- **advertised shape of the product image**: (sum of the members' rows) x (widest member) [x bands] after the orientation options -/
 theorem assembleCollection_shape {h0 h1 : ImageHeaderFields} {rest : List ImageHeaderFields} {o : ReaderOptions} {t : Seg}
     (hst : Stacked (h0 :: h1 :: rest)) (hok : assembleCollection (h0 :: h1 :: rest) o = .ok t) :
     t.fshape = formattedShape (totalRows (h0 :: h1 :: rest)) (totalCols (h0 :: h1 :: rest)) h0 o := by
-  obtain ⟨ho, hc, X, rfl, hX, hXs, _⟩ := collection_assembled hst hok
+  obtain ⟨ho, hc, X, rfl, _, hX, hXs, _⟩ := collection_assembled hst hok
   rw [wrap_fshape X _ _ _ 2 o _ (orientLast_ok _ _ _ _ o ho) hXs (fun iq hq => hc iq (by rw [orientLast_fmt] at hq; exact hq)),
     formattedShape_eq, orientLast_fmt]
   cases h0.cplx <;> rfl
@@ -398,7 +412,7 @@ theorem assembleCollection_spec {h0 h1 : ImageHeaderFields} {rest : List ImageHe
       collectionSrc (h0 :: h1 :: rest) o (totalRows (h0 :: h1 :: rest)) (totalCols (h0 :: h1 :: rest))
         (idx 0).toNat (idx 1).toNat (idx 2).toNat := by
   have hsh := assembleCollection_shape hst hok
-  obtain ⟨ho, hc, X, rfl, hX, hXs, hraw⟩ := collection_assembled hst hok
+  obtain ⟨ho, hc, X, rfl, _, hX, hXs, hraw⟩ := collection_assembled hst hok
   have hcc : ∀ iq, (orientLast h0.cplx h0.nbands o true).1 = some iq → h0.nbands = 2 :=
     fun iq hq => hc iq (by rw [orientLast_fmt] at hq; exact hq)
   rw [hsh, formattedShape_eq] at hin
